@@ -647,7 +647,9 @@ def unit_semantic(chk, program):
         if mname_ not in ('pgns', 'message', 'decoder', 'encoder', 'ioclient'):
             converters |= {q for q in m_.defs if '.' not in q}
     lits = sorted({l for (_, l) in PHYS} | {'zz', 'k', 'pa', 'rad', 'm/s', 'knots', 'C', 'celsius'})
-    quantities = list(SI_UNIT) + ['LENGTH']
+    # one field per convertible quantity, and one per every other quantity the database uses (PRESSURE_RATE, ANGULAR_VELOCITY ...: never converted)
+    other_q = sorted({fl.quantity for d in program.db.defs for fl in d.fields if fl.quantity and fl.quantity not in SI_UNIT})
+    quantities = list(SI_UNIT) + (other_q or ['LENGTH'])
     db_units = sorted({(fl.quantity, fl.unit) for d in program.db.defs for fl in d.fields if fl.quantity in SI_UNIT and fl.unit != SI_UNIT[fl.quantity] and fl.unit})
     def build():
         fs = []
@@ -851,7 +853,18 @@ def unit_rules(chk, program):
         _unit_rows(chk, program, fn, rows, f)
         _unit_rest(chk, program, rows, fn)
         return
-    loops = [s for s in fn.body if isinstance(s, ast.For)]
+    # not interpretable: the structural reading below may confirm; what it does not recognise is a refusal, not an alarm
+    from .rules_reasm import _ConfirmOnly
+    real = chk
+    co = _ConfirmOnly(real, {'UNIT-EFFECT', 'UNIT-TABLE', 'UNIT-AFFINE', 'UNIT-NORM', 'UNIT-APPLIED', 'UNIT-LABEL'})
+    co.units = getattr(real, 'units', {})
+    try:
+        _unit_structural(co, program, fn, params)
+    finally:
+        if co.unrecognised:
+            real.unknown('UNIT-EFFECT', 'apply_preferred_units', f"neither interpretable nor of the recognised shape: {co.unrecognised[:3]}", MSG, fn.lineno)
+
+def _unit_structural(chk, program, fn, params):
     loops = [s for s in fn.body if isinstance(s, ast.For)]
     if len(loops) != 1 or ast.unparse(loops[0].iter) != f"{params[0]}.fields":
         raise AnalysisError('apply_preferred_units: loop over self.fields not found')
